@@ -258,6 +258,127 @@ def indep_write(store, g, enc):
         root.attrs["zzz"] = 1
 
 
+# ----------------------------------------------------------------- non-conformant stores (reader's error branch)
+DEFECTS = ["no-geff", "geff-not-mapping", "geff-invalid", "no-nodes-ids", "no-edges-group", "ids-is-group", "props-is-array",
+           "no-values", "values-is-group", "missing-is-group", "data-is-group", "no-md-entry", "md-dtype-int8", "md-dtype-bool",
+           "md-varlength-no-data", "foreign-array-in-props", "short-data", "mask-wrong-length", "edge-ids-other-dtype"]
+
+
+def inject_defect(store, defect, g):
+    """break one clause of the specification in a conformant store (zarr API only).  Returns False when the
+    defect does not apply to this graph."""
+    import zarr
+
+    root = zarr.open_group(store, mode="a")
+    meta = dict(root.attrs["geff"])
+    fmt = root.metadata.zarr_format
+    names = sorted(meta["node_props_metadata"])
+    dense = [k for k in names if not meta["node_props_metadata"][k].get("varlength", False)]
+    vlen = [k for k in names if meta["node_props_metadata"][k].get("varlength", False)]
+
+    def regroup(parent, key):
+        del parent[key]
+        parent.create_group(key)
+
+    if defect == "no-geff":
+        del root.attrs["geff"]
+    elif defect == "geff-not-mapping":
+        root.attrs["geff"] = 3
+    elif defect == "geff-invalid":
+        meta["directed"] = "maybe"
+        root.attrs["geff"] = meta
+    elif defect == "no-nodes-ids":
+        del root["nodes"]["ids"]
+    elif defect == "no-edges-group":
+        del root["edges"]
+    elif defect == "ids-is-group":
+        regroup(root["nodes"], "ids")
+    elif defect == "props-is-array":
+        if "props" in root["nodes"]:
+            del root["nodes"]["props"]
+        root["nodes"].create_array("props", shape=(1,), dtype="int8")
+    elif defect in ("no-values", "values-is-group", "missing-is-group", "data-is-group", "no-md-entry", "foreign-array-in-props"):
+        if not names:
+            return False
+        k = names[0]
+        pg = root["nodes/props"][k]
+        if defect == "no-values":
+            del pg["values"]
+        elif defect == "values-is-group":
+            regroup(pg, "values")
+        elif defect == "missing-is-group":
+            if "missing" in pg:
+                del pg["missing"]
+            pg.create_group("missing")
+        elif defect == "data-is-group":
+            if "data" in pg:
+                del pg["data"]
+            pg.create_group("data")
+        elif defect == "no-md-entry":
+            del meta["node_props_metadata"][k]
+            root.attrs["geff"] = meta
+        else:
+            root["nodes/props"].create_array("stray", shape=(1,), dtype="int8")
+    elif defect in ("md-dtype-int8", "md-dtype-bool"):
+        ints = [k for k in dense if meta["node_props_metadata"][k]["dtype"] in R.INT_DTYPES]
+        if not ints:
+            return False
+        meta["node_props_metadata"][ints[0]]["dtype"] = defect[len("md-dtype-"):]
+        root.attrs["geff"] = meta
+    elif defect == "md-varlength-no-data":
+        if not dense:
+            return False
+        meta["node_props_metadata"][dense[0]]["varlength"] = True
+        root.attrs["geff"] = meta
+    elif defect == "short-data":
+        if not vlen or len(g["node_ids"]) == 0:
+            return False
+        pg = root["nodes/props"][vlen[0]]
+        d = pg["data"][...]
+        if d.size == 0:
+            return False
+        del pg["data"]
+        z = pg.create_array("data", shape=(d.size - 1,), dtype=d.dtype)
+        if d.size > 1:
+            z[...] = d[:-1]
+    elif defect == "mask-wrong-length":
+        if not names:
+            return False
+        pg = root["nodes/props"][names[0]]
+        if "missing" in pg:
+            del pg["missing"]
+        pg.create_array("missing", shape=(len(g["node_ids"]) + 1,), dtype="bool")
+    elif defect == "edge-ids-other-dtype":
+        e = root["edges"]["ids"][...]
+        other = "int32" if e.dtype != np.int32 else "int16"
+        if e.size and (e.max() > 32767 or e.min() < -32768):
+            return False
+        del root["edges"]["ids"]
+        z = root["edges"].create_array("ids", shape=e.shape, dtype=other)
+        if e.size:
+            z[...] = e.astype(other)
+    else:
+        raise ValueError(defect)
+    return True
+
+
+def dir3_run(case):
+    """a conformant independent store with one injected defect: dump + what the reader (validation off) does"""
+    g = R.build_geff(case["g"])
+    obs = {}
+    with R.StoreCtx("mem") as store:
+        try:
+            indep_write(store, g, case["enc"])
+            if not inject_defect(store, case["defect"], g):
+                return {"skipped": True}
+            obs["dump"] = R.dump_store(store)
+        except BaseException as e:  # noqa: BLE001
+            return {"indep_error": f"{type(e).__name__}: {e}"[:300]}
+        obs["read_raw"] = observe_read(store, False)
+        obs["read_validated"] = observe_read(store, True)
+    return obs
+
+
 # ----------------------------------------------------------------- implementation observations
 def observe_read(store, validate):
     from geff.core_io import read_to_memory
@@ -401,6 +522,19 @@ def run(ck: common.Check):
             d2.append({"g": g2, "enc": draw_encoding(ck.rng, g2), "origin": c["origin"], "direction": 2})
     obs2 = common.pmap(dir2_run, d2, chunksize=8)
 
+    # ---------------- direction 3: non-conformant stores (reader error branch; correspondence only)
+    d3 = []
+    pool = [c for c in base if c["origin"] in ("random", "special-names", "special-md") or c["origin"].startswith("exh-vlen")]
+    for i, defect in enumerate(DEFECTS * (6 if ck.quick else 40)):
+        c = pool[(i * 7919) % len(pool)]
+        g2 = {**c["g"], **{key: [[nm, p] for nm, p in c["g"][key]
+                                 if not ("obj" in p["values"] and any(e["dtype"] == "str" for e in p["values"]["obj"]))]
+                           for key in ("node_props", "edge_props")}}
+        enc = draw_encoding(ck.rng, g2)
+        enc.update(store="mem", strings="fixed", vlen_values_dtype="uint64")
+        d3.append({"g": g2, "enc": enc, "defect": defect, "origin": c["origin"], "direction": 3})
+    obs3 = common.pmap(dir3_run, d3, chunksize=8)
+
     # ---------------- the Lean side
     drv = ck.driver()
     reqs = []
@@ -408,6 +542,10 @@ def run(ck: common.Check):
         if ob.get("dump") is not None:
             reqs.append({"op": "denote", "store": R.strip_width(ob["dump"])})
     for ob in obs2:
+        if ob.get("dump") is not None:
+            reqs.append({"op": "denote", "store": R.strip_width(ob["dump"])})
+            reqs.append({"op": "read", "store": R.strip_width(ob["dump"])})
+    for ob in obs3:
         if ob.get("dump") is not None:
             reqs.append({"op": "denote", "store": R.strip_width(ob["dump"])})
             reqs.append({"op": "read", "store": R.strip_width(ob["dump"])})
@@ -494,6 +632,38 @@ def run(ck: common.Check):
                     ck.corr_broken("C02:readToMemory-result", c, R.strip_width(rd["inmem"]), R.canon_geff(lean_r["geff"]))
                 elif canon_graph(lean_r["graph"]) != want:
                     ck.corr_broken("C02:graphOf", c, want, canon_graph(lean_r["graph"]))
+    # ---------------- direction 3 verdicts (model reader == real reader on stores that break one clause)
+    n3 = 0
+    for c, ob in zip(d3, obs3):
+        if ob.get("skipped"):
+            continue
+        if "indep_error" in ob:
+            ck.broken.append({"what": "corr C02:defect-injection", "detail": {"case": c, "error": ob["indep_error"]}})
+            continue
+        n3 += 1
+        rd = ob["read_raw"]
+        conf = None
+        if answers is not None:
+            a, r = answers[ai], answers[ai + 1]
+            ai += 2
+            if "err" in a or "err" in r:
+                ck.corr_broken("C02:driver", c, None, [a, r])
+                continue
+            conf = a["graph"] is not None
+            m_out = r["outcome"]
+            if m_out.startswith("unmodelled"):
+                ck.histogram["d3:unmodelled"] = ck.histogram.get("d3:unmodelled", 0) + 1
+            elif m_out != rd["outcome"]:
+                ck.corr_broken("C02:readToMemory-outcome(non-conformant)", c, rd, m_out)
+            elif m_out == "ok" and R.canon_geff(r["geff"]) != R.strip_width(rd["inmem"]):
+                ck.corr_broken("C02:readToMemory-result(non-conformant)", c, R.strip_width(rd["inmem"]), R.canon_geff(r["geff"]))
+        ck.case(c, f"d3:{c['defect']}:{'conformant' if conf else 'non-conformant'}:raw={rd['outcome']}:validated={ob['read_validated']['outcome']}",
+                nontrivial=True)
+        # a store the specification still assigns a graph to must still be read (e.g. a foreign array inside props is not one)
+        if conf and rd["outcome"] != "ok":
+            ck.fail("C02:reader-rejects-conformant", f"defect {c['defect']} leaves the store conformant but read_to_memory raised "
+                    f"{rd['outcome']}: {rd.get('msg')}", c, rd["outcome"], "ok")
+    ck.extra["direction3_cases"] = n3
     ck.extra["direction1_cases"] = len(d1)
     ck.extra["direction2_cases"] = len(d2)
     ck.extra["encodings_per_graph"] = k
